@@ -363,3 +363,10 @@ MUTANTS += [
     m('reader_lecturer_from_index', ['C09', 'C10'], FIO, 'project_lecturers.append(int(line_split[3]))',
       'project_lecturers.append(int(line_split[3]) if model.num_projects < 4 else min(len(project_lecturers) + 1, model.num_lecturers))'),
 ]
+
+MUTANTS += [
+    m('pipeline_skew_clamped', ['C17'], GSH, '    distribution = create_linear_distribution(n2, skew)',
+      '    distribution = create_linear_distribution(n2, skew if skew >= 1 else 1.0)'),
+    m('pipeline_uniform_when_many', ['C17'], GSH, '            p=distribution)',
+      '            p=distribution if n2 < 9 else None)'),
+]
